@@ -961,6 +961,616 @@ def run_isolation(chk: Check, mr: ModelRun):
         shutil.rmtree(tmp, ignore_errors=True)
 
 
+# ------------------------------------------------------------------ Q6 async consumers that stop early and come back
+import asyncio
+
+
+class VirtualLoop(asyncio.SelectorEventLoop):
+    """An event loop whose clock jumps to the next timer when nothing is ready: sleeps cost no real time and every
+    schedule of consumer / producer tasks is the same in every run."""
+
+    def __init__(self):
+        super().__init__()
+        self._vnow = 0.0
+        self.virtual = hasattr(self, '_scheduled') and hasattr(self, '_ready')
+
+    def time(self):
+        return self._vnow if self.virtual else super().time()
+
+    def _run_once(self):
+        if self.virtual and not self._ready and self._scheduled:
+            pending = [h._when for h in self._scheduled if not h._cancelled]
+            if pending:
+                self._vnow = max(self._vnow, min(pending))
+        super()._run_once()
+
+
+def run_async(chk: Check, mr: ModelRun):
+    """receive_async(): consumers that take some packets and stop (break, aclose, cancelled while busy with a packet,
+    timed out while idle), producers sending while the consumer waits, later sessions (async or sync) on the same reader.
+    Every step the async layer makes on receive() is logged and replayed on the generator model."""
+    from tatsu.packetz.queue import PacketzQueue
+    rng = random.Random(f'{PID}-async-{chk.seed}')
+    tmp = Path(tempfile.mkdtemp(prefix='verif-c19-', dir='/var/tmp'))
+    cwd = os.getcwd()
+    os.chdir(tmp)
+
+    class _C19RecordedQueue(PacketzQueue):
+        """logs every receive() generator it hands out, and every step made on it, as ops of QueueGen.v"""
+        def receive(self):
+            log = self.c19_log
+            j = log['ngen']
+            log['ngen'] += 1
+            log['ops'].append(Atom('open'))
+            inner = PacketzQueue.receive(self)
+
+            def steps():
+                try:
+                    while True:
+                        log['ops'].append([Atom('next'), j])
+                        try:
+                            p = next(inner)
+                        except StopIteration:
+                            return
+                        yield p
+                finally:
+                    inner.close()
+            return steps()
+
+    loop = VirtualLoop()
+    chk.count('async.virtual-clock' if loop.virtual else 'async.real-clock')
+    reqs, expect = [], []
+    obad = 0
+    try:
+        with quiet():
+            nh = 160 if chk.quick else 3000
+            for it in range(nh):
+                path = tmp / f'a{it}.jsonl'
+                log = {'ops': [], 'ngen': 0}
+                reader = _C19RecordedQueue(path=path)
+                reader.c19_log = log
+                writer = reader if rng.random() < 0.3 else PacketzQueue(path=path)
+                ids, sent, delivered, left, kinds, starved = {}, [], [], [], [], []
+
+                def send():
+                    if rng.random() < 0.08:
+                        with path.open('at', encoding='utf-8') as f:
+                            f.write('not a packet at all\n')
+                        log['ops'].append([Atom('send'), Atom('corrupt')])
+                        return
+                    pkt = writer.send(to='r', data=gen_payload(rng))
+                    if pkt.id in ids:
+                        chk.count('queue.id_collisions')
+                    ids.setdefault(pkt.id, len(ids) + 1)
+                    sent.append(ids[pkt.id])
+                    log['ops'].append([Atom('send'), [Atom('good'), ids[pkt.id]]])
+
+                def got(p):
+                    delivered.append(ids.get(p.id, -1))
+
+                async def produce(plan):
+                    for dt in plan:
+                        await asyncio.sleep(dt)
+                        send()
+
+                async def session(n, how, slow, plan):
+                    nonlocal obad
+                    before, sent_before = len(delivered), len(sent)
+                    # at least three polls after the last send of the producer, plus the time a slow consumer spends on its packets
+                    patience = sum(plan) + 0.035 + 0.003 * (sent_before - before + len(plan) + 1)
+                    agen = reader.receive_async()
+                    prod = loop.create_task(produce(plan))
+                    reached = asyncio.Event()
+
+                    async def consume():
+                        k = 0
+                        async for p in agen:
+                            got(p)
+                            k += 1
+                            if k >= n:
+                                reached.set()
+                                if how != 'cancel':
+                                    break
+                            if slow or how == 'cancel':
+                                await asyncio.sleep(0.003)      # the consumer is busy with this packet
+
+                    if how == 'cancel':
+                        task = loop.create_task(consume())
+                        try:
+                            await asyncio.wait_for(reached.wait(), patience)
+                        except asyncio.TimeoutError:
+                            pass
+                        task.cancel()
+                        with contextlib.suppress(asyncio.CancelledError):
+                            await task
+                    else:
+                        try:
+                            await asyncio.wait_for(consume(), patience)
+                        except asyncio.TimeoutError:
+                            pass
+                    await prod
+                    # a consumer that waits is served: it has what it asked for, or everything there was
+                    available = (sent_before - before) + (len(sent) - sent_before)
+                    if len(set(sent)) == len(sent) and len(delivered) - before != min(n, available) and not starved:
+                        starved.append(1)
+                        obad += 1
+                        chk.violation('oracle:async-sessions:' + ('starved' if len(delivered) - before < min(n, available) else 'overfed'),
+                                      'a consumer of receive_async() that asked for n packets and waited did not get min(n, pending) packets',
+                                      {'oracle': 'waiting async consumer is served', 'asked': n, 'available': available,
+                                       'got': len(delivered) - before, 'how': how, 'producer_delays': plan, 'ops': sx(log['ops'])})
+                    if how == 'leave' or (how == 'cancel' and rng.random() < 0.5):
+                        left.append(agen)       # abandoned where it stands, not closed
+                    else:
+                        await agen.aclose()
+
+                async def resume_one():
+                    agen = left.pop(rng.randrange(len(left)))
+                    try:
+                        got(await asyncio.wait_for(anext(agen), 0.025))
+                        left.append(agen)
+                    except (asyncio.TimeoutError, StopAsyncIteration):
+                        pass
+
+                async def history():
+                    for _ in range(rng.randint(1, 4)):
+                        for _ in range(rng.choice([0, 1, 2, 2, 3, 4, 5, 7])):
+                            send()
+                        pending = len(sent) - len(delivered)
+                        plan = [rng.choice([0.002, 0.007, 0.013, 0.021]) for _ in range(rng.choice([0, 0, 0, 1, 2, 3]))]
+                        k = rng.random()
+                        if k < 0.12:
+                            kind = 'sync-partial'
+                            g = reader.receive()
+                            for _ in range(rng.randint(0, max(1, pending))):
+                                try:
+                                    got(next(g))
+                                except StopIteration:
+                                    break
+                            if rng.random() < 0.7:
+                                g.close()
+                            else:
+                                left.append(g)
+                        elif k < 0.2 and [a for a in left if hasattr(a, 'aclose')]:
+                            kind = 'resume-abandoned'
+                            left[:] = [a for a in left if hasattr(a, 'aclose')] + [a for a in left if not hasattr(a, 'aclose')]
+                            n_async = len([a for a in left if hasattr(a, 'aclose')])
+                            rest = left[n_async:]
+                            del left[n_async:]
+                            await resume_one()
+                            left.extend(rest)
+                        else:
+                            how = rng.choice(['aclose', 'aclose', 'leave', 'cancel', 'cancel'])
+                            total = pending + len(plan)
+                            n = max(1, rng.choice([1, 1, 2, total - 1, total - 1, total, total, pending, pending - 1, total + 1]))
+                            slow = rng.random() < 0.4
+                            kind = how + ('-all' if n == total else '-idle-timeout' if n > total else '-early') + ('-producer' if plan else '')
+                            await session(n, how, slow, plan)
+                        kinds.append(kind)
+                        chk.count('async.session.' + kind)
+                    # whatever is still pending goes to one last consumer
+                    if rng.random() < 0.5:
+                        for p in reader.receive():
+                            got(p)
+                    else:
+                        await session(10 ** 6, 'aclose', False, [])
+                    for a in left:
+                        if hasattr(a, 'aclose'):
+                            await a.aclose()
+                        else:
+                            a.close()
+
+                loop.run_until_complete(history())
+                ops = log['ops']
+                chk.case('async:' + sx(ops), nontrivial=len(sent) > 1)
+                chk.count('async.histories')
+                path.unlink(missing_ok=True)
+                if len(set(sent)) != len(sent):
+                    continue
+                reqs.append(f'(genqueue {sx(ops)})')
+                expect.append((ops, list(delivered), kinds))
+                if delivered != sent:
+                    obad += 1
+                    lost = [x for x in sent if x not in delivered]
+                    rep = [x for x in set(delivered) if delivered.count(x) > 1]
+                    what = 'lost' if lost else 'repeated' if rep else 'order'
+                    chk.violation('oracle:async-sessions:' + what,
+                                  'consumers of receive_async() that stop and come back: packets not delivered exactly once in send order',
+                                  {'oracle': 'exactly once, in order (async sessions)', 'sessions': kinds, 'ops': sx(ops),
+                                   'delivered': delivered, 'sent': sent})
+        cbad = 0
+        for (ops, delivered, kinds), rep in zip(expect, mr.ask(reqs)):
+            mdel = [int(x) for x in rep[1]] if rep[1] != 'nil' else []
+            if mdel != delivered:
+                cbad += 1
+                chk.violation('corr:queue-async', 'what async consumers were handed differs from the model run on the steps '
+                              'receive_async() made on receive()',
+                              {'correspondence': 'Q6 async sessions', 'sessions': kinds, 'ops': sx(ops), 'impl': delivered, 'model': mdel})
+        chk.obligation('Q6:receive_async() sessions vs QueueGen.v (steps on receive() logged)', 'correspondence', cbad == 0,
+                       f'{cbad} of {len(reqs)} histories differ')
+        chk.obligation('Q6:async consumers that stop early and come back get every packet once, in order', 'oracle', obad == 0)
+    finally:
+        with contextlib.suppress(Exception):
+            loop.run_until_complete(loop.shutdown_asyncgens())
+        loop.close()
+        os.chdir(cwd)
+        shutil.rmtree(tmp, ignore_errors=True)
+
+
+# ------------------------------------------------------------------ Q7 several writers of one file, records of every size
+import builtins
+import io
+import threading
+
+ENVELOPE = 80       # about what the packet adds around a string payload in its line
+LINE_MARKS = [8192, 8192, 8192, 2 * 8192, 65536, 262144]     # text-layer chunk, its double, pipe-sized, the reader's buffer
+
+
+def sized_payload(rng, quick=True):
+    """payloads whose record is far larger than anything gen_payload makes: around the buffer sizes of the file layers,
+    as one text, as many small items, with long runs (large payload, small record), with characters of several bytes"""
+    k = rng.random()
+    if k < 0.5:
+        mark = rng.choice(LINE_MARKS[:4] if quick and rng.random() < 0.85 else LINE_MARKS)
+        size = max(1, mark - ENVELOPE + rng.randint(-150, 60))
+    else:
+        size = rng.choice([rng.randint(8200, 12000), rng.randint(9000, 40000), rng.randint(4000, 8000), rng.randint(20000, 70000)])
+    shape = rng.choice(['text', 'text', 'items', 'wide', 'runs', 'mixed'])
+    if shape == 'text':
+        a = rng.choice(['abcdefghij', 'ab', 'xyz~', 'a1b2', '0123456789'])
+        return shape, (a * (size // len(a) + 1))[:size]
+    if shape == 'wide':
+        a = rng.choice(['αβγ', 'éa', ' x', '日本語'])
+        n = size // 2
+        return shape, (a * (n // len(a) + 1))[:n]
+    if shape == 'runs':
+        out = []
+        while sum(map(len, out)) < size * 3:
+            out.append(rng.choice('ab~ 1') * rng.choice([4, 50, 1000, 5000]))
+            out.append(rng.choice(['', 'x', '~', '12']))
+        return shape, ''.join(out)
+    if shape == 'items':
+        out, n = [], 0
+        while n < size:
+            x = gen_record(rng, 1) if rng.random() < 0.6 else gen_payload(rng, 1)
+            out.append(x)
+            n += len(json.dumps(x, ensure_ascii=False)) + 1
+        return shape, out
+    half = size // 2
+    return shape, {'head': gen_payload(rng), 'body': ('lorem ipsum ' * (half // 12 + 1))[:half], 'rows': [[i, 'r%d' % i] for i in range(half // 12)]}
+
+
+@contextlib.contextmanager
+def tapped_opens(path, hook):
+    """While active, a file object opened for writing on `path` (through pathlib or open()) tells hook(event) about the
+    open and about every call made on it ('open', 'write', 'writelines', 'flush', 'close'): the places where the operating system
+    may run another process that uses the same file.  What the hook itself opens is not tapped."""
+    real_open = io.open
+    target = os.path.realpath(path)
+    state = {'busy': False}
+
+    def fire(ev):
+        if state['busy']:
+            return
+        state['busy'] = True
+        try:
+            hook(ev)
+        finally:
+            state['busy'] = False
+
+    class Tapped:
+        def __init__(self, real):
+            self.__dict__['_real'] = real
+
+        def write(self, text):
+            n = self._real.write(text)
+            fire('write')
+            return n
+
+        def writelines(self, lines):
+            for x in lines:
+                self._real.write(x)
+                fire('writelines')
+
+        def flush(self):
+            self._real.flush()
+            fire('flush')
+
+        def close(self):
+            self._real.close()
+            fire('close')
+
+        def __enter__(self):
+            self._real.__enter__()
+            return self
+
+        def __exit__(self, *exc):
+            r = self._real.__exit__(*exc)
+            fire('close')
+            return r
+
+        def __iter__(self):
+            return iter(self._real)
+
+        def __getattr__(self, name):
+            x = getattr(self._real, name)
+            if not callable(x) or name.startswith('__') or name in ('fileno', 'isatty', 'readable', 'writable', 'seekable'):
+                return x
+
+            def call(*a, **kw):         # seek, tell, truncate, ...: the other party may run after each of them too
+                r = x(*a, **kw)
+                fire(name)
+                return r
+            return call
+
+        def __setattr__(self, name, value):
+            setattr(self._real, name, value)
+
+    def opener(file, mode='r', *args, **kwargs):
+        f = real_open(file, mode, *args, **kwargs)
+        try:
+            same = isinstance(file, (str, bytes, os.PathLike)) and os.path.realpath(os.fsdecode(file)) == target
+        except Exception:
+            same = False
+        if same and not state['busy'] and set(mode) & set('wax+'):
+            fire('open')
+            return Tapped(f)
+        return f
+
+    io.open = opener
+    builtins.open = opener
+    try:
+        yield
+    finally:
+        io.open = real_open
+        builtins.open = real_open
+
+
+def run_writers(chk: Check, mr: ModelRun):
+    """Several PacketzQueue objects append to one file, records from a few bytes to beyond every buffer of the file layers.
+    (a) another writer (or a reader) runs at each point where a send hands something to its file object;
+    (b) real threads send at the same time.  Every completed send reaches every reader once, in an order that agrees with
+    the order of sends that did not overlap."""
+    from tatsu.packetz.packet import pack
+    from tatsu.packetz.queue import PacketzQueue
+    rng = random.Random(f'{PID}-writers-{chk.seed}')
+    tmp = Path(tempfile.mkdtemp(prefix='verif-c19-', dir='/var/tmp'))
+    cwd = os.getcwd()
+    os.chdir(tmp)
+    reqs, expect = [], []
+    obad = 0
+    tap_events = {}
+
+    def judge(got, sends, where, extra):
+        """got: [(number, same recipient and data)] of one reader; sends: number -> (start, end) ticks of completed sends"""
+        nonlocal obad
+        nums = [g[0] for g in got]
+        pos = {n: i for i, n in enumerate(nums)}
+        what = None
+        if extra.get('readers_raised'):
+            what = 'reader-raised'
+        elif [n for n in sends if n not in pos]:
+            what = 'lost'
+        elif len(pos) != len(nums):
+            what = 'repeated'
+        elif [n for n in nums if n not in sends]:
+            what = 'invented'
+        elif any(sends[x][1] < sends[y][0] and pos[x] > pos[y] for x in sends for y in sends):
+            what = 'order'
+        elif not all(g[1] for g in got):
+            what = 'data'
+        if what:
+            obad += 1
+            chk.violation(f'oracle:several-writers:{where}:{what}',
+                          'several writers of one queue file: a reader did not get every completed send once, in an order that '
+                          'agrees with the sends that did not overlap',
+                          dict({'oracle': 'several writers', 'received': nums, 'sent(start,end)': {str(k): list(v) for k, v in sends.items()}},
+                               **extra))
+
+    try:
+        with quiet():
+            # ---- (a) another party runs wherever a send calls into its file object
+            nh = 70 if chk.quick else 1200
+            for it in range(nh):
+                path = tmp / f's{it}.jsonl'
+                first = PacketzQueue(path=path)
+                others = [PacketzQueue(path=path) for _ in range(rng.randint(1, 2))]
+                readers = [PacketzQueue(path=path) for _ in range(rng.randint(1, 2))]
+                rgot = [[] for _ in readers]
+                recvs = [[] for _ in readers]         # number of complete lines in the file at each receive of this reader
+                pkts, sends, shapes, raised = {}, {}, [], []
+                clock = [0]
+                seen_events = []
+
+                def tick():
+                    clock[0] += 1
+                    return clock[0]
+
+                def do_send(q, big):
+                    shape, data = sized_payload(rng, chk.quick) if big else ('small', gen_payload(rng))
+                    to = rng.choice(['r', 'all', None])
+                    start = tick()
+                    pkt = q.send(to=to, data=data)
+                    n = len(pkts) + 1
+                    pkts[n] = (pkt, to, data)
+                    sends[n] = (start, tick())
+                    shapes.append(shape)
+                    return n
+
+                def do_recv(j):
+                    recvs[j].append(path.read_bytes().count(b'\n'))
+                    try:
+                        for p in readers[j].receive():      # named at the end: a send still running has no number yet
+                            rgot[j].append(p)
+                    except Exception as e:
+                        raised.append(type(e).__name__)
+
+                def intruder(ev):
+                    seen_events.append(ev)
+                    tap_events[ev] = tap_events.get(ev, 0) + 1
+                    if rng.random() < (0.25 if ev in ('open', 'close') else 0.75):
+                        for _ in range(rng.choice([1, 1, 2])):
+                            if rng.random() < 0.75:
+                                do_send(rng.choice(others), rng.random() < 0.25)
+                            else:
+                                do_recv(rng.randrange(len(readers)))
+
+                for _ in range(rng.randint(1, 5)):
+                    k = rng.random()
+                    if k < 0.7:
+                        # the send of `first` is the one with other parties running inside it
+                        shape, data = sized_payload(rng, chk.quick) if rng.random() < 0.75 else ('small', gen_payload(rng))
+                        to = rng.choice(['r', 'all', None])
+                        start = tick()
+                        with tapped_opens(path, intruder):
+                            pkt = first.send(to=to, data=data)
+                        n = len(pkts) + 1
+                        pkts[n] = (pkt, to, data)
+                        sends[n] = (start, tick())
+                        shapes.append(shape + '*')
+                    elif k < 0.85:
+                        do_send(rng.choice(others), rng.random() < 0.5)
+                    else:
+                        do_recv(rng.randrange(len(readers)))
+                readers.append(PacketzQueue(path=path))
+                rgot.append([])
+                recvs.append([])
+                for j in rng.sample(range(len(readers)), len(readers)):
+                    do_recv(j)
+                chk.case('writers:' + repr((shapes, sorted(sends.values()), recvs)), nontrivial=len(sends) > 1)
+                chk.count('writers.histories')
+                for sh in shapes:
+                    chk.count('writers.record.' + sh)
+                for ev in seen_events:
+                    chk.count('writers.tap.' + ev)
+                if len({v[0].id for v in pkts.values()}) != len(pkts):
+                    chk.count('queue.id_collisions')
+                    path.unlink(missing_ok=True)
+                    continue
+                text = path.read_bytes().decode('utf-8', errors='replace')
+                lines = text.split('\n')[:-1] if text.endswith('\n') else text.split('\n')[:-1]
+                by_line = {pack(v[0]): n for n, v in pkts.items()}
+                file_ops = [[Atom('send'), [Atom('good'), by_line[x]]] if x in by_line else [Atom('send'), Atom('corrupt')] for x in lines]
+                sizes = sorted(len(x.encode('utf-8')) for x in lines)
+                number = {v[0].id: n for n, v in pkts.items()}
+                for j in range(len(readers)):
+                    rgot[j] = [(number.get(p.id, -1), p.id in number and getattr(p, 'to', None) == pkts[number[p.id]][1]
+                                and getattr(p, 'data', None) == pkts[number[p.id]][2]) for p in rgot[j]]
+                    ops, done = [], 0
+                    for kk in recvs[j]:
+                        ops += file_ops[done:max(done, kk)]
+                        done = max(done, kk)
+                        ops.append([Atom('recv'), kk])
+                    reqs.append(f'(queue {sx(ops)})')
+                    expect.append((ops, [g[0] for g in rgot[j]]))
+                    judge(rgot[j], sends, 'scheduled', {'reader': j, 'record_shapes': shapes, 'line_bytes_in_file': sizes,
+                                                        'tap_events': seen_events[:20], 'readers_raised': raised[:3]})
+                path.unlink(missing_ok=True)
+            chk.obligation('Q7:the tap saw the queue file opened and written by send()', 'translator',
+                           tap_events.get('open', 0) > 0 and tap_events.get('write', 0) + tap_events.get('writelines', 0) > 0,
+                           str(tap_events))
+            cbad = 0
+            for (ops, got), rep in zip(expect, mr.ask(reqs)):
+                mdel = [int(x) for x in rep[1]] if rep[1] != 'nil' else []
+                if mdel != got:
+                    cbad += 1
+                    chk.violation('corr:queue-several-writers', 'a reader of a file with several writers differs from the model run on '
+                                  'the lines of the file', {'correspondence': 'Q7 several writers', 'ops': sx(ops)[:2000], 'impl': got, 'model': mdel})
+            chk.obligation('Q7:readers of a file with several writers vs Queue.v (lines of the file)', 'correspondence', cbad == 0)
+
+            # ---- (b) real threads
+            rounds = 3 if chk.quick else 30
+            old_switch = sys.getswitchinterval()
+            sys.setswitchinterval(1e-5)
+            try:
+                for it in range(rounds):
+                    path = tmp / f't{it}.jsonl'
+                    nw = rng.randint(2, 4)
+                    per = rng.randint(12, 25) if chk.quick else rng.randint(20, 80)
+                    plans = [[sized_payload(rng, True) if rng.random() < 0.7 else ('small', gen_payload(rng)) for _ in range(per)]
+                             for _ in range(nw)]
+                    plans = [[(sh, d if len(json.dumps(d, ensure_ascii=False)) < 80000 else 'big' + 'ab' * 10000) for sh, d in pl] for pl in plans]
+                    queues = [PacketzQueue(path=path) for _ in range(nw)]
+                    out = [[] for _ in range(nw)]
+                    errors = []
+                    go = threading.Barrier(nw + 1)
+                    stop = threading.Event()
+                    live_reader = PacketzQueue(path=path)
+                    live_got = []
+
+                    def work(w):
+                        try:
+                            go.wait()
+                            for sh, d in plans[w]:
+                                out[w].append((queues[w].send(to=f'w{w}', data=d), d))
+                        except Exception as e:      # pragma: no cover
+                            errors.append(repr(e))
+
+                    def poll():
+                        try:
+                            go.wait()
+                            while not stop.is_set():
+                                live_got.extend(live_reader.receive())
+                        except Exception as e:      # pragma: no cover
+                            errors.append(repr(e))
+
+                    ths = [threading.Thread(target=work, args=(w,)) for w in range(nw)] + [threading.Thread(target=poll)]
+                    for t in ths:
+                        t.start()
+                    for t in ths[:-1]:
+                        t.join()
+                    stop.set()
+                    ths[-1].join()
+                    live_got.extend(live_reader.receive())
+                    try:
+                        late = list(PacketzQueue(path=path).receive())
+                    except Exception as e:
+                        late = []
+                        errors.append(repr(e))
+                    chk.case('writers-threads:' + repr([[sh for sh, _ in pl] for pl in plans]), nontrivial=True)
+                    chk.count('writers.thread-rounds')
+                    chk.count('writers.thread-sends', nw * per)
+                    allp = [x for o in out for x in o]
+                    if len({p.id for p, _ in allp}) != len(allp):
+                        chk.count('queue.id_collisions')
+                        path.unlink(missing_ok=True)
+                        continue
+                    num = {p.id: (w, i) for w in range(nw) for i, (p, _) in enumerate(out[w])}
+                    data_of = {p.id: d for p, d in allp}
+                    for name, got in (('polling-reader', live_got), ('late-reader', late)):
+                        keys = [num.get(p.id) for p in got]
+                        what = None
+                        if errors:
+                            what = 'raised'
+                        elif set(num.values()) - set(keys):
+                            what = 'lost'
+                        elif len(set(keys)) != len(keys):
+                            what = 'repeated'
+                        elif None in keys:
+                            what = 'invented'
+                        elif any([i for ww, i in keys if ww == w] != list(range(len(out[w]))) for w in range(nw)):
+                            what = 'order'
+                        elif any(getattr(p, 'data', None) != data_of[p.id] or getattr(p, 'to', None) != f'w{num[p.id][0]}' for p in got):
+                            what = 'data'
+                        if what:
+                            obad += 1
+                            sizes = [len(x) for x in path.read_bytes().split(b'\n')]
+                            chk.violation(f'oracle:several-writers:threads:{what}',
+                                          'writer threads sending at the same time: a reader did not get every completed send once, '
+                                          'each writer\'s packets in its order',
+                                          {'oracle': 'several writer threads', 'reader': name, 'writers': nw, 'sends_each': per,
+                                           'received': len(keys), 'sent': len(num), 'errors': errors[:3],
+                                           'line_bytes_in_file(first 40)': sizes[:40]})
+                            break
+                    path.unlink(missing_ok=True)
+            finally:
+                sys.setswitchinterval(old_switch)
+        chk.obligation('Q7:every completed send of several writers (scheduled inside each other, and threads) is received once', 'oracle',
+                       obad == 0)
+    finally:
+        os.chdir(cwd)
+        shutil.rmtree(tmp, ignore_errors=True)
+
+
 def main():
     chk = Check(PID)
     chk.rule = ('rle: all strings over {~,a,1,4} up to length 6 (quick) / 8 (thorough) plus random strings with runs '
@@ -971,12 +1581,22 @@ def main():
                 'damage: every record of generated files damaged in ~30 ways (bytes exchanged, moved, one up one down, single '
                 'characters, torn / run-together lines, the checksum field), through unpack() and through a reader of the file; '
                 'isolation: 1-5 readers of one file in one process whose consumers (and the sender) change their own packets in place, '
-                'unpack twice / pack again.')
-    chk.trusted += ['Python re (for the regexes in compact.py), json, blake2b checksum, the file system',
+                'unpack twice / pack again; '
+                'async: receive_async() sessions on a virtual clock (consumer breaks / closes / abandons the iterator / is cancelled while '
+                'busy with a packet / times out idle, producers sending while it waits, abandoned iterators resumed, sync receive() '
+                'in between), each step on receive() logged for the generator model; '
+                'writers: 2-3 writer objects and 2-3 readers of one file, records from a few bytes to around 8 KiB / 16 KiB / 64 KiB / '
+                '256 KiB (one text, many items, long runs, multi-byte characters), another writer or a reader run at every call a send '
+                'makes on its file object (open, write, flush, close), and writer threads sending at the same time with a polling reader.')
+    chk.trusted += ['asyncio with a clock that jumps to the next timer (VirtualLoop; falls back to the real clock if the loop internals differ)',
+                    'the tap on io.open / builtins.open sees the file objects send() writes to (obligation Q7: the tap saw ...)',
+                    'Python re (for the regexes in compact.py), json, blake2b checksum, the file system',
                     'modelled: compact.py rle_encode/rle_decode (\\d restricted to ASCII digits), queue.py send/receive at '
                     'record granularity; not modelled: json text, asjson/fromjson (oracle only), class_escape (constants checked)']
     chk.assumptions += ['packet ids are pairwise distinct (new_id() is monotonic_ns mod 10^8; collisions counted in distribution)',
-                        'a send appends its record with one write; readers see prefixes of the file',
+                        'readers see prefixes of the file; that a send appends its record as one piece is no longer assumed: Q7 runs other '
+                        'writers at every call a send makes on its file object and real writer threads (appends of the operating system to '
+                        'an O_APPEND file are taken to be atomic)',
                         'the record checksum has 16 bits, so one random damage in 65536 is accepted by any implementation: accepted '
                         'damaged lines are counted as chance while their number (per damage class and in all) stays within what a Poisson '
                         'count of mean tried/65536 reaches with probability 1e-5; more is a violation']
@@ -991,6 +1611,8 @@ def main():
         run_queue(chk, mr)
         run_damage(chk, mr)
         run_isolation(chk, mr)
+        run_async(chk, mr)
+        run_writers(chk, mr)
     chk.exhaustive = False
     return chk.finish()
 
